@@ -115,7 +115,7 @@ def gen_cases(pid, tier, seed):
         c["alpha"] = rng.choice([0, 1, 0.5, 1.0, 0.0, cg.val(cg.dyadic(rng.uniform(-2, 2), 8)), 0.25, -1.5])
         c["beta"] = rng.choice([0, 0.0, 1, cg.val(cg.dyadic(rng.uniform(-2, 2), 8)), 0.75])
         c["orders"] = [list(o) for o in rng.sample(list(itertools.product(range(5), repeat=3)), 3 if quick else 8)] + [[4, 4, 4]] * (d == 0) \
-            + [[3, 0, 1], [2, 2, 0]]
+            + [[3, 0, 1], [2, 2, 0], [0, 0, 0]]
         out.append(c)
     return out
 
@@ -210,6 +210,22 @@ def replay_case(case):
                 if outcome != expect:
                     res["violations"].append("%s threshold rule: most negative value %.6g, threshold %.6g (%.4g times its magnitude): "
                                              "expected %s, got %s" % (fname, -neg, thr, factor, "clipping to 0" if expect == "zero" else "ValueError", outcome))
+        # ---- exact zeros with a zero threshold: every function of an l >= 1 shell vanishes at its own centre, and the
+        # gradient of an s function vanishes at its centre -- exactly, in any order of floating-point operations.  A value
+        # that is exactly zero is not negative: it must be returned, not rejected.
+        S = gb.Shell()
+        cen = np.array([0.25, -0.5, 1.0])
+        for fname, shell in (("evaluate_density", S(1, cen, np.array([[0.7], [0.4]]), np.array([1.5, 0.3]), "cartesian")),
+                             ("evaluate_density", S(2, cen, np.array([[1.0]]), np.array([0.8]), "spherical")),
+                             ("evaluate_posdef_kinetic_energy_density", S(0, cen, np.array([[0.6], [0.5]]), np.array([2.0, 0.4]), "cartesian"))):
+            nbf = shell.num_seg_cont * (shell.num_cart if shell.coord_type == "cartesian" else shell.num_sph)
+            res["n"] += 1
+            try:
+                got = getattr(dens, fname)(np.eye(nbf), [shell], cen[None, :], threshold=0.0)
+                if not np.all(got == 0.0):
+                    res["violations"].append("%s at the centre of an l=%d shell is %r, exactly 0 expected" % (fname, shell.angmom, got))
+            except ValueError as exc:
+                res["violations"].append("%s(threshold=0.0) raised for a value that is exactly zero (not negative): %s" % (fname, exc))
     else:
         st = gb.mod("gbasis.evals.stress_tensor")
         rows = [stack(["stress_%d_1" % i, "stress_%d_2" % i, "stress_%d_3" % i], alpha, beta) for i in (1, 2, 3)]
